@@ -28,6 +28,9 @@ pub fn run(rep: &mut Report, thorough: bool) {
     let ip4: Vec<Ip> = vec![cli4(), Ip::V4([0, 0, 0, 0]), Ip::V4([255, 255, 255, 255]), Ip::V4([224, 0, 0, 1]), Ip::V4([127, 0, 0, 1]), srv4(), srv4b(), Ip::V4([169, 254, 1, 1])];
     let ip6: Vec<Ip> = vec![cli6(), Ip::parse("::"), Ip::parse("ff02::1"), Ip::parse("::1"), srv6(), srv6b(), Ip::parse("fe80::1"), Ip::parse("::ffff:10.0.0.9")];
     for (tag, cfg) in crate::props::cfg_variants() {
+        if rep.secondary && tag != "plain" && tag != "lists" {
+            continue;
+        }
         // address alphabets
         let kinds4 = [Kind::Arp, Kind::Echo, Kind::Syn, Kind::Stun];
         let kinds6 = [Kind::Ns, Kind::Echo, Kind::Syn, Kind::Stun];
@@ -95,8 +98,10 @@ pub fn run(rep: &mut Report, thorough: bool) {
         let stun_cp = stun_classic(&stun_attr(3, &[0, 0, 0, 2]), &ID16);
         let stun_cn = stun_classic(&stun_attr(3, &[0, 0, 0, 5]), &ID16);
         let http = b"GET / HTTP/1.1\r\n\r\n".to_vec();
-        let nsweeps: u64 = if thorough { 8 } else { 4 };
-        let sw = |k: u64| if thorough { k } else { [0, 2, 4, 6][k as usize] };
+        // quick tier: four sweeps under the two main configurations, two under the single-list ones
+        let main_cfg = tag == "plain" || tag == "lists";
+        let nsweeps: u64 = if thorough { 8 } else if main_cfg { 4 } else { 2 };
+        let sw = |k: u64| if thorough { k } else if main_cfg { [0, 2, 4, 6][k as usize] } else { [0, 6][k as usize] };
         let dims = [nsweeps, 2, 5, 65536];
         sweep_frames(rep, &cfg, &format!("ports-{}", tag), "port sweeps (all 65536 values of one port x fixed other port) x {v4,v6} x {TCP SYN, UDP STUN, UDP STUN change-port, UDP STUN change-request without port bit, UDP HTTP}", product(&dims), |i| {
             let d = unrank(i, &dims);
@@ -112,7 +117,7 @@ pub fn run(rep: &mut Report, thorough: bool) {
         });
         // TCP data behind a valid cookie: [SYN, PSH|ACK(HTTP request)] per port value
         let t0 = std::time::Instant::now();
-        let nsw: u64 = if thorough { 8 } else { 2 };
+        let nsw: u64 = if thorough { 8 } else if main_cfg { 2 } else { 1 };
         let dims = [nsw, 2, 65536];
         let key = cfg.key;
         let mut big = stun_attr(0x8022, &[b'x'; 252]);
